@@ -31,7 +31,7 @@ def nontrivial(b):
 
 def run(ctx):
     q = ctx.quick
-    U.exhaustive(ctx, ["MC_UdpNatC03.cfg", "MC_UdpNatSync.cfg"] + ([] if q else ["MC_UdpNatLong.cfg"]), "C03")
+    U.exhaustive(ctx, ["MC_UdpNatC03.cfg", "MC_UdpNatSync.cfg"] if q else ["MC_UdpNatC03T.cfg", "MC_UdpNatSync.cfg", "MC_UdpNatLong.cfg"], "C03")
     behs = U.gen(ctx, "Gen_UdpNatReal.cfg", 110 if q else 700)
     trace, sums = U.run_real(ctx, behs, "c03")
     U.validate(ctx, trace, "UdpNatTraceReal.cfg", U.PROPS["C03"], "real sockets, TLC behaviours", behs)
